@@ -58,7 +58,7 @@ func Profiles() map[string]Profile {
 		RangeKeys: 5, MaxIters: 2, IterCls: "rk", ScanLatest: true, LatestCls: "rk"})
 	add(Profile{Name: "C09", W: map[string]int{"write": 35, "maint": 12, "positer": 12, "posop": 50, "close": 5, "extingest": 8, "extmask": 6},
 		RangeKeys: 4, MaxIters: 2, IterCls: "mask", Masks: true})
-	add(Profile{Name: "C14", W: map[string]int{"write": 35, "ingest": 6, "maint": 30, "snap": 8, "viewiter": 6, "close": 4, "efos": 3, "sdelchain": 4},
+	add(Profile{Name: "C14", W: map[string]int{"write": 35, "ingest": 12, "ingestpair": 3, "maint": 30, "snap": 8, "viewiter": 6, "close": 4, "efos": 3, "sdelchain": 4},
 		ReadSnaps: true, ReadIters: true, ScanLatest: true, RangeKeys: 1, MaxSnaps: 2, MaxIters: 2, IterCls: "view"})
 	add(Profile{Name: "C36", W: map[string]int{"write": 25, "ingest": 25, "excise": 10, "ingestexcise": 10, "maint": 10, "viewiter": 6, "snap": 3, "close": 4, "extingest": 8, "ingestpair": 6},
 		ScanLatest: true, GetLatest: 2, ReadIters: true, RangeKeys: 2, MaxIters: 2, MaxSnaps: 1, IterCls: "view"})
